@@ -14,6 +14,7 @@ from __future__ import annotations
 
 import os
 import random
+import warnings
 
 from simkit import core
 from simkit.core import EventLog
@@ -71,7 +72,13 @@ class _Run:
         elif k == "integer":
             e = numedit.IntegerEdit(cap, txt if txt else None, base=cfg.get("base", 10), allow_negative=cfg.get("neg", False))
         else:
-            e = numedit.FloatEdit(cap, txt if txt else None, allow_negative=cfg.get("neg", False))
+            kw = {}
+            if cfg.get("sep"):
+                # the decimal separator option, under its current name or the deprecated camelCase one
+                kw = {"decimalSeparator": cfg["sep"]} if cfg.get("sep_old_name") else {"decimal_separator": cfg["sep"]}
+            with warnings.catch_warnings():
+                warnings.simplefilter("ignore", DeprecationWarning)
+                e = numedit.FloatEdit(cap, txt if txt else None, allow_negative=cfg.get("neg", False), **kw)
         if pos is not None:
             e.set_edit_pos(pos)
         return e
@@ -102,7 +109,7 @@ class _Run:
         k = self.kind
         if k == "int":
             return ch in "0123456789"
-        allowed = "0123456789ABCDEFGHIJKLMNOPQRSTUVWXYZ"[: cfg.get("base", 10)] if k == "integer" else "0123456789."
+        allowed = "0123456789ABCDEFGHIJKLMNOPQRSTUVWXYZ"[: cfg.get("base", 10)] if k == "integer" else "0123456789" + cfg.get("sep", ".")
         if ch.upper() in allowed:
             return not (pos == 0 and text[:1] == "-")
         return bool(cfg.get("neg")) and ch == "-" and pos == 0 and "-" not in text
@@ -654,7 +661,7 @@ class _Run:
         if k == "integer" and cfg.get("base", 10) == 16:
             allowed = "0123456789ABCDEFabcdef"
         if k == "float":
-            allowed += "."
+            allowed += cfg.get("sep", ".")
         body = t
         if cfg.get("neg") and k in ("integer", "float") and t.startswith("-"):
             body = t[1:]
@@ -735,11 +742,16 @@ class EditEngine(Engine):
             cfg = {"kind": kind, "caption": rng.choice(["", "n:"]), "text": rng.choice(["", "0", "42", "5002", "007"]), "neg": rng.random() < 0.6, "base": rng.choice([10, 10, 16]) if kind == "integer" else 10, "width": rng.choice([2, 5, 10])}
             if kind == "float":
                 cfg["text"] = rng.choice(["", "3.14", "0.5", "10"])
+                if rng.random() < 0.5:
+                    cfg["sep"] = rng.choice([",", ",", "."])
+                    cfg["sep_old_name"] = rng.random() < 0.5
+                    if cfg["sep"] == ",":
+                        cfg["text"] = rng.choice(["", "10", "42"])  # (the default value is always written with a point)
         ops = []
         for _ in range(rng.randint(1, 40)):
             q = rng.random()
             if q < 0.28:
-                ch = rng.choice([c for c in CHARS if (self._wide or c not in "日本") and (self._comb or c != "\u0301")]) if cfg["kind"] == "edit" else rng.choice(list("0123456789-.aF x"))
+                ch = rng.choice([c for c in CHARS if (self._wide or c not in "日本") and (self._comb or c != "\u0301")]) if cfg["kind"] == "edit" else rng.choice(list("0123456789-.,aF x"))
                 ops.append({"op": "key", "key": ch})
             elif q < 0.62:
                 ops.append({"op": "key", "key": rng.choice(KEYS)})
